@@ -300,6 +300,9 @@ pub struct Ctx {
     /// a C09 run continues after an oracle of another property failed: the model no longer describes
     /// memory, only the model-independent C09 oracles are evaluated from then on
     pub degraded: bool,
+    /// the recursive mapper was handed its level-4 table through an alias (new_unchecked), so level-4
+    /// accesses do not go through the recursive address
+    pub p4_alias: bool,
 }
 
 macro_rules! fail {
@@ -1318,6 +1321,9 @@ where
                     let chain = [mk(r, r, r, r), mk(r, r, r, i(4)), mk(r, r, i(4), i(3)), mk(r, i(4), i(3), i(2))];
                     // the table itself (level L) is chain[4 - L]; its ancestors are the ones before it
                     for (k, pg) in chain.iter().take(5 - t.level as usize).enumerate() {
+                        if k == 0 && ctx.p4_alias {
+                            continue;
+                        }
                         if !visited.contains(pg) {
                             missing = Some((4 - k as u8, t.base, *pg));
                             break;
@@ -1586,6 +1592,7 @@ pub fn run_backend_opts(case: &MapCase, backend: Backend, enabled: u32, signals:
         enabled,
         first_skip: None,
         degraded: false,
+        p4_alias: false,
     };
     let fail = match backend {
         Backend::Mapped => {
@@ -1611,6 +1618,22 @@ pub fn run_backend_opts(case: &MapCase, backend: Backend, enabled: u32, signals:
             m.mmu_enable(rec);
             let r = rec as u64;
             let va = (r << 39) | (r << 30) | (r << 21) | (r << 12);
+            // new_unchecked only requires "the active level-4 table" and "the index of its recursive entry":
+            // a quarter of the histories hand it the table through another alias (the harness's linear view of
+            // the frame, like a kernel that reaches the root through its physical-memory mapping); the tables
+            // below must still be reached through the recursive index alone
+            if case.cr3_low & 0x3000 == 0x3000 {
+                let p4 = unsafe { &mut *(m.frame_ptr(p4_frame) as *mut PageTable) };
+                let mut mp = unsafe { RecursivePageTable::new_unchecked(p4, x86_64::structures::paging::PageTableIndex::new(rec)) };
+                cpu().clear_log();
+                ctx.labels.push("recursive-new_unchecked-with-level4-alias".into());
+                ctx.p4_alias = true;
+                let fail = run_ops(&mut ctx, &mut mp, case, enabled);
+                let final_tables = ctx.model.tables().len();
+                m.reset();
+                cpu().reset();
+                return BackendRun { results: ctx.results, fail, labels: ctx.labels, shape: ctx.shape, nontrivial: ctx.nontrivial, steps_done: ctx.step, final_tables, first_skip: ctx.first_skip };
+            }
             let created = outcome(|| RecursivePageTable::new(unsafe { &mut *(va as *mut PageTable) }).map_err(|e| format!("{:?}", e)));
             match created {
                 Outcome::Ret(Ok(mut mp)) => {
@@ -1672,7 +1695,16 @@ where
             continue;
         }
         // probes: a rotating subset through the crate, raw walker on all
-        if let Err(f) = step(ctx, mp, op).and_then(|_| probe_step(ctx, mp, i, false)) {
+        if let Err(mut f) = step(ctx, mp, op).and_then(|_| probe_step(ctx, mp, i, false)) {
+            if ctx.backend == Backend::Recursive && f.msg.contains("UNEXPECTED-FAULT signal=11") {
+                // the recursive mapper dereferenced an address that is not served by the recursive region of its
+                // index at all: whatever it wanted to reach, the address was not the index-repetition one (C20),
+                // and the memory behind it is not page-table memory (C09)
+                f.tag |= T_C20 | T_C09;
+                f.msg.push_str(" [the faulting address is not a recursive address of index ");
+                f.msg.push_str(&ctx.rec.to_string());
+                f.msg.push(']');
+            }
             if enabled & T_C09 != 0 && f.tag != 0 && f.tag & enabled == 0 {
                 // a C09 run does not stop at another property's finding: what the remaining calls
                 // touch is still decided (by the model-independent oracles only)
